@@ -478,6 +478,8 @@ def _wants_calls(C):
 
 
 def list_units(C):
+    if C.status == 'B':
+        return ['enumerated-scope']
     S = SymFactory()
     return [label for label, _ in C.cases(S)]
 
@@ -498,6 +500,20 @@ def verify_unit(cname, case_label, tier, seed):
     C = REGISTRY[cname]
     budget = C.budget or (10 if tier == 'quick' else 60)
     t_start = time.time()
+    if C.status == 'B':
+        # bounded stand-in: the contract is evaluated on the real function for every input of an enumerated scope
+        n = 0
+        failures = []
+        for args in C.bounded(tier):
+            n += 1
+            bad, desc = check_concrete(C, args, {})
+            if bad and len(failures) < 3:
+                failures.append({'violated': bad, 'native_outcome': desc, 'args': jsonable(args), 'ghosts': jsonable({})})
+        return {'contract': cname, 'case': case_label, 'props': C.props, 'obligations': [], 'paths': 0,
+                'feasible_paths': 0, 'status': 'sampled', 'notes': [], 'vacuity': None,
+                'sampled': {'evaluations': n, 'tried': n, 'failures': failures, 'exhaustive': True,
+                            'scope': getattr(C, 'scope', '')},
+                'source': _source_of(C), 'wall_s': round(time.time() - t_start, 3)}
     if C.status == 'S':
         # bounded stand-in only: the contract is evaluated on the real function for sampled inputs
         n = C.samples * (1 if tier == 'quick' else 10)
